@@ -191,6 +191,14 @@ impl Send {
         debug_assert!(!frame.is_end_stream(),
             "Informational frames must not have end_stream flag set. Validation should happen at the internal send informational header streams.");
 
+        // Interim responses may only precede the final response headers. Once
+        // those have been sent, or the send half has been closed or reset, a
+        // HEADERS frame here would be illegal (after END_STREAM) or be taken for
+        // trailers by the peer.
+        if !stream.state.is_send_awaiting_headers() {
+            return Err(UserError::UnexpectedFrameType);
+        }
+
         // Queue the frame for sending WITHOUT changing stream state
         // This is the key difference from send_headers - we don't call stream.state.send_open()
         self.prioritize
